@@ -306,11 +306,19 @@ pub fn emit_module_noalloc(spec: &Spec) -> String {
     s.push_str("    impl Sum for bool { fn sum(&self) -> u32 { *self as u32 } }\n");
     s.push_str("    impl Sum for &str { fn sum(&self) -> u32 { self.as_bytes().iter().fold(self.len() as u32, |a, b| a.wrapping_mul(31).wrapping_add(*b as u32)) } }\n");
     s.push_str("    impl Sum for &[u8] { fn sum(&self) -> u32 { self.iter().fold(self.len() as u32, |a, b| a.wrapping_mul(31).wrapping_add(*b as u32)) } }\n");
+    // user-defined parameter and response type (a keyword enum with its own conversions): the macro
+    // accepts any parameter type with `TryInto<T> for &Value` and any response type with `Response`
+    s.push_str("    #[derive(Clone, Copy, PartialEq, Debug)]\n    pub enum Mode { Off, On }\n");
+    s.push_str("    impl<'a> TryFrom<&scpi::Value<'a>> for Mode {\n        type Error = scpi::Error;\n        fn try_from(v: &scpi::Value<'a>) -> Result<Mode, scpi::Error> {\n            match v {\n                scpi::Value::Characters(c) if c.eq_ignore_ascii_case(\"ON\") || c.eq_ignore_ascii_case(\"TRUE\") => Ok(Mode::On),\n                scpi::Value::Characters(c) if c.eq_ignore_ascii_case(\"OFF\") || c.eq_ignore_ascii_case(\"FALSE\") => Ok(Mode::Off),\n                scpi::Value::Decimal(\"1\") => Ok(Mode::On),\n                scpi::Value::Decimal(\"0\") => Ok(Mode::Off),\n                scpi::Value::Characters(_) | scpi::Value::Decimal(_) => Err(scpi::Error::IllegalParameterValue),\n                _ => Err(scpi::Error::DataTypeError),\n            }\n        }\n    }\n");
+    s.push_str("    impl Sum for Mode { fn sum(&self) -> u32 { 7 + (*self == Mode::On) as u32 } }\n");
+    s.push_str("    impl scpi::Response for Mode { async fn write_response(&self, f: &mut impl scpi::Write) -> Result<(), scpi::Error> { f.write_str(match self { Mode::On => \"ON\", Mode::Off => \"OFF\" }).await } }\n");
     s.push_str("    impl<const Q: usize> scpi::ErrorCommands for I<Q> { fn error_queue(&mut self) -> &mut impl scpi::ErrorQueue { &mut self.queue } }\n");
     s.push_str("    impl<const Q: usize> scpi::StandardCommands for I<Q> {}\n");
     s.push_str("    #[scpi::interface(StandardCommands, ErrorCommands)]\n    impl<const Q: usize> I<Q> {\n");
     for (id, d) in spec.decls.iter().enumerate() {
-        let params: Vec<String> = d.params.iter().enumerate().map(|(i, t)| format!("a{}: {}", i, t.rust())).collect();
+        // declarations under USER: take / return the user-defined type where the table says bool
+        let user = d.cmd.starts_with("USER:");
+        let params: Vec<String> = d.params.iter().enumerate().map(|(i, t)| format!("a{}: {}", i, if user && *t == Ty::Bool { "Mode".to_string() } else { t.rust().to_string() })).collect();
         let sums: Vec<String> = (0..d.params.len()).map(|i| format!("Sum::sum(&a{})", i)).collect();
         let sum_expr = if sums.is_empty() { "0u32".to_string() } else { sums.join(".wrapping_mul(33) ^ ") };
         let app = id % 3 == 1;
@@ -324,12 +332,12 @@ pub fn emit_module_noalloc(spec: &Spec) -> String {
             id,
             if params.is_empty() { "" } else { ", " },
             params.join(", "),
-            na_ret_type(&d.ret),
+            if user && d.ret == RetTy::Bool { "Mode".to_string() } else { na_ret_type(&d.ret) },
             if app { "AppErr" } else { "scpi::Error" },
             if app { "rec_app" } else { "rec" },
             id,
             sum_expr,
-            na_ret_expr(&d.ret, id)
+            if user && d.ret == RetTy::Bool { (if id % 2 == 0 { "Mode::On" } else { "Mode::Off" }).to_string() } else { na_ret_expr(&d.ret, id) }
         ));
     }
     s.push_str("    }\n");
